@@ -762,6 +762,77 @@ fn main() {
             cr.shape = Some(util::fnv(&format!("e|{}|{}|{}", cw, sw, tw)));
             cr
         }));
+        // ---- EXT_FDT as a real SENDER emits it over a series of publications: the instance id comes from sender state
+        // (start value, +1 per publication, wrap at 2^20), the version from the profile. Every FDT packet is decoded by
+        // the independent codec and by flute's parser.
+        let starts: Vec<u32> = vec![0, 1, 0xFFFE, 0xFFFF, 0x10000, 0xFFFFC, 0xFFFFD, 0xFFFFE, 0xFFFFF];
+        let nst = starts.len();
+        gens.push(Gen::new("sender_fdt_ids", nst * 2 * 2, move |_ctx, i| {
+            let start = starts[i % nst];
+            let rfc3926 = (i / nst) % 2 == 1;
+            let full = (i / nst / 2) % 2 == 0;
+            let mut cr = CaseResult::default();
+            let mut spec = vh::session::SenderSpec::new(vh::session::OtiSpec::new(vh::session::Fec::NoCode, 1400, 8, 0));
+            spec.fdt_start_id = start;
+            spec.rfc3926 = rfc3926;
+            spec.full_fdt = full;
+            let want_v: u8 = if rfc3926 { 1 } else { 2 };
+            let r = util::guarded(|| {
+                let mut sender = spec.sender()?;
+                let mut seen: Vec<(u8, u32, Option<(u8, u32)>)> = vec![];
+                for k in 0..8u64 {
+                    sender.publish(util::at(k * 10)).map_err(|e| format!("publish: {:?}", e))?;
+                    for _ in 0..50 {
+                        match sender.read(util::at(k * 10)) {
+                            None => break,
+                            Some(b) => {
+                                let d = wire::decode(&b).map_err(|e| format!("undecodable: {}", e))?;
+                                if let Some((v, id)) = d.fdt {
+                                    let fl = parse_alc_pkt(&b).ok().and_then(|p| p.fdt_info.map(|f| (f.version as u8, f.fdt_instance_id)));
+                                    seen.push((v, id, fl));
+                                }
+                            }
+                        }
+                    }
+                }
+                Ok::<_, String>(seen)
+            });
+            let wit = json!({"fdt_start_id": start, "rfc3926": rfc3926, "full_fdt": full});
+            match r {
+                Ok(Ok(seen)) => {
+                    let mut ids: Vec<u32> = vec![];
+                    for (v, id, fl) in &seen {
+                        if *v != want_v {
+                            cr.violations.push(Violation::new("ext_fdt_version", format!("sender with fdt_start_id {:#x} ({} profile): an FDT packet carries EXT_FDT version {} (instance id {:#x}), {} expected", start, if rfc3926 { "RFC 3926" } else { "RFC 6726" }, v, id, want_v))
+                                .with("field", "fdt").with("after_wrap", *id < start).witness(wit.clone()));
+                            break;
+                        }
+                        if *fl != Some((*v, *id)) {
+                            cr.violations.push(Violation::new("rel1_roundtrip", format!("EXT_FDT on the wire is (V={}, id={:#x}), flute's parser reports {:?}", v, id, fl)).with("field", "fdt").with("fec", 0u64).witness(wit.clone()));
+                            break;
+                        }
+                        if ids.last() != Some(id) {
+                            ids.push(*id);
+                        }
+                    }
+                    for (k, id) in ids.iter().enumerate() {
+                        let want = ((start as u64 + k as u64) % (1 << 20)) as u32;
+                        if *id != want {
+                            cr.violations.push(Violation::new("ext_fdt_id_sequence", format!("sender with fdt_start_id {:#x}: instance ids on the wire {:x?}, the {}-th should be {:#x}", start, ids, k, want)).with("field", "fdt").witness(wit.clone()));
+                            break;
+                        }
+                    }
+                    cr.count("sender_fdt_packets", seen.len() as u64);
+                    if seen.len() >= 8 {
+                        cr.shape = Some(util::fnv(&format!("sfdt|{}|{}|{}", start, rfc3926, full)));
+                    }
+                    cr.sample = Some(json!({"fdt_start_id": start, "rfc3926": rfc3926, "ids_on_the_wire": ids}));
+                }
+                Ok(Err(e)) => cr.inconclusive = Some(e),
+                Err(p) => cr.violations.push(Violation::new("panic", format!("{} @ {}", p.msg, p.short_loc())).with("site", p.file())),
+            }
+            cr
+        }));
         gens
     });
 }
